@@ -18,7 +18,7 @@ REQUIRED_CLASSES = ('move:tree', 'move:cyclic', 'displ:1', 'displ:2', 'displ:3',
                     'table:agrees', 'table:disagrees', 'embedded:mc-moves', 'graph:forest',
                     'sequence:same-table-object', 'sequence:table-lengths-edited-in-place',
                     'sequence:table-graph-edited-in-place', 'sequence:positions-edited-in-place',
-                    'sequence:other-table-same-size')
+                    'sequence:other-table-same-size', 'sequence:refused-call-before')
 RULE = ('enumerated part: every labelled tree on n<=Nmax vertices x every moved atom (Nmax = 7 thorough; quick: 6 '
         'plus every 10th tree on 7); random part: trees, cyclic graphs and forests up to 60 atoms. A case is '
         'non-trivial when the moved atom has at least one neighbour that has to be re-positioned; distinct = '
@@ -270,6 +270,20 @@ def run_seq(ctx, case):
         atom = hot[int(rng.integers(0, 3))] if rng.random() < 0.7 else int(rng.integers(0, n))
         displ = rng.normal(size=3) * 10.0 ** rng.uniform(-2, 0)
         ops.append(op)
+        if rng.random() < 0.15:
+            # a call that is refused (a displacement with two components, a negative width for the random draw) between
+            # two good ones: whatever it left behind must not reach the next call
+            bad_atom = int(rng.integers(0, n))              # usually not the atom of the next good call
+            bad_table = other if rng.random() < 0.3 else table
+            try:
+                if rng.random() < 0.5:
+                    move(pos, bad_table, atom_index=bad_atom, displ=np.array([0.1, 0.2]))
+                else:
+                    move(pos, bad_table, atom_index=bad_atom, sigma_scale=-1.0)
+                ctx.count('malformed_call_accepted')
+            except Exception:  # noqa
+                ctx.hit('sequence:refused-call-before')
+            ops.append('refused-call')
         try:
             if rng.random() < 0.8:
                 out = move(pos, table, atom_index=atom, displ=displ)
